@@ -371,6 +371,10 @@ impl RemoteStateActor {
         // trace!("handling message");
         match msg {
             RemoteStateMessage::SendDatagram(sender, transmit) => {
+                #[cfg(iroh_verif)]
+                iroh_base::verif::event("remote_state.handle_send_datagram", || {
+                    self.state.endpoint_id.to_string()
+                });
                 self.state.handle_msg_send_datagram(sender, transmit).await;
             }
             RemoteStateMessage::AddConnection(handle, tx) => {
